@@ -6,7 +6,7 @@ import os
 from hypothesis import strategies as st
 
 from vlib import gen
-from vlib.common import HarnessError, Violation, absent_key, config_kwargs, content_of, digest, new_dir, rm_dir, short
+from vlib.common import LOWERED_CHOICES, HarnessError, Violation, absent_key, config_kwargs, container_class, content_of, digest, new_dir, rm_dir, short
 from vlib.interp import MODES_PACK, _mode
 from vlib.rawread import RawState, check_consistency
 from vlib.runner import explore
@@ -54,13 +54,14 @@ def strategy():
                 st.fixed_dictionaries({'long': st.booleans(), 'ops': st.lists(rop, min_size=2, max_size=4)}), min_size=1, max_size=2
             ),
             'packer': st.fixed_dictionaries({'mode': st.integers(0, 5), 'clean_per_pack': st.booleans(), 'validate': st.booleans()}),
+            'lowered': st.sampled_from(list(LOWERED_CHOICES)),
             'schedule': st.lists(st.tuples(st.integers(0, 7), st.sampled_from(RUNS)), min_size=0, max_size=40),
         }
     )
 
 
 def run_case(case):  # pylint: disable=too-many-locals,too-many-statements,too-many-branches
-    from disk_objectstore import Container
+    Container = container_class(case.get('lowered'))
     from disk_objectstore.container import ObjectType
     from disk_objectstore.exceptions import NotExistent
 
